@@ -443,4 +443,13 @@ def selected (s : State) (sel : List Nat) : List (Nat × Nat) := s.numbers.filte
 def selectedSize (s : State) (sel : List Nat) : Nat :=
   ((selected s sel).map (fun p => s.sizes.getD p.2 0)).sum
 
+/-- the layout is the one `_cluster_dofs_gridwise` produces from the registered variables alone -/
+def Canonical (e : Env) (s : State) : Prop :=
+  s.numbers = numberFrom 0 ((clusterOrder e s.vars).map (·.id)) ∧
+  s.sizes = (clusterOrder e s.vars).map (varSize e)
+
+/-- one `remove_variables` call per variable, in the order `ids` -/
+def seqRemove (e : Env) (s : State) (ids : List Nat) : State :=
+  ids.foldl (fun st i => (removeLoop e st [i]).1) s
+
 end PorepyVerif.C05
